@@ -1,9 +1,8 @@
-(* C07 (extension mage)  A rejected action is reported alone and changes nothing, for the job-specific classes of component/specific/{magician,bishop,archmagefb,archmagetc}.py.  Model: Model/SpecMage.v (16 classes: DotPunisherComponent, Infinity, DivineAttackSkillComponent, DivineMinion, HexaAngelRayComponent, IfrittComponent, PoisonNovaComponent, PoisonChainComponent, InfernalVenom, FlameSwipVI, FerventDrain, FrostEffect, ThunderAttackSkillComponent, JupyterThunder, ThunderBreak, ChainLightningVIComponent), tied to the code by the correspondence of tools/lib/ext_mage.py.  xreduce_spec c m p t s = the reducer m of class c with parameters p and payload t on the state s, where s holds the class's own entities AND the entities it reaches through binds (divine mark, frost stack, Jupiter-Thunder schedule, drain stack).  C07_mage_reject_alone: every modelled reducer except FlameSwipVI.use: if the returned events contain a rejection they are exactly [reject] and the returned state IS the input state (bound entities included).  C07_mage_only_use_rejects: elapse and the listening reducers (trigger, stack, explode, increase_step, increase_three, reset_cooldown) never reject.  C07_mage_not_ready_is_noop: use on a skill that is cooling down returns the unchanged state and one rejection.  C07_mage_flameswip_reject_* : the shipped FlameSwipVI.use appends the DOT event and increases its stack whether or not the attack trait rejected: the full statement is refuted with a witness, and the largest true sub-statement is proved (the events are exactly [reject; add_dot] and the state is the input state up to the stack slot).  Known finding C07-flameswip-use-after-reject.  C07_mage_nonvacuous: rejections do occur. *)
+(* C07 (extension mage)  A rejected action is reported alone and changes nothing, for the job-specific classes of component/specific/{magician,bishop,archmagefb,archmagetc}.py.  Model: Model/SpecMage.v (16 classes: DotPunisherComponent, Infinity, DivineAttackSkillComponent, DivineMinion, HexaAngelRayComponent, IfrittComponent, PoisonNovaComponent, PoisonChainComponent, InfernalVenom, FlameSwipVI, FerventDrain, FrostEffect, ThunderAttackSkillComponent, JupyterThunder, ThunderBreak, ChainLightningVIComponent), tied to the code by the correspondence of tools/lib/ext_mage.py.  xreduce_spec c m p t s = the reducer m of class c with parameters p and payload t on the state s, where s holds the class's own entities AND the entities it reaches through binds (divine mark, frost stack, Jupiter-Thunder schedule, drain stack).  C07_mage_reject_alone: every modelled reducer (FlameSwipVI.use included, after the repair 385777f of a defect this check found): if the returned events contain a rejection they are exactly [reject] and the returned state IS the input state (bound entities included).  C07_mage_only_use_rejects: elapse and the listening reducers (trigger, stack, explode, increase_step, increase_three, reset_cooldown) never reject.  C07_mage_not_ready_is_noop: use on a skill that is cooling down returns the unchanged state and one rejection.  C07_mage_flameswip_reject_repaired: the witness of the former known finding C07-flameswip-use-after-reject (a cooling FlameSwipVI answered use with [reject; add_dot] and a larger stack) now returns the rejection alone and the input state.  C07_mage_nonvacuous: rejections do occur. *)
 From Coq Require Import ZArith List Bool. From V.Model Require Import Comp SpecMage. From V.Proofs Require Import SpecMageReject.
 
 Theorem C07_mage_reject_alone :
   forall (c : xcomp) (m : xmeth) (p : xpar) (t : Z) (s s' : xst) (es : list xev),
-        is_flameswip_use c m = false ->
         xreduce_spec c m p t s = Some (s', es) ->
         xrejected es = true -> es = XE EReject :: nil /\ s' = s.
 Proof. exact @xreject_alone_spec. Qed.
@@ -16,21 +15,12 @@ Proof. exact @xonly_use_rejects_spec. Qed.
 Theorem C07_mage_not_ready_is_noop :
   forall (c : xcomp) (p : xpar) (t : Z) (s : xst),
         has_use c = true ->
-        c <> FlameSwipVI ->
         0 < u_cd (x_u s) -> xreduce_spec c XUse p t s = Some (s, XE EReject :: nil).
 Proof. exact @xnot_ready_noop. Qed.
 
-Theorem C07_mage_flameswip_reject_partial :
-  forall (p : xpar) (t : Z) (s s' : xst) (es : list xev),
-        xreduce_spec FlameSwipVI XUse p t s = Some (s', es) ->
-        xrejected es = true -> es = XE EReject :: mobdot (xp p) :: nil /\ xset_stk s' (x_stk s) = s.
-Proof. exact @flameswip_reject_partial. Qed.
-
-Theorem C07_mage_flameswip_reject_refuted :
-  exists (p : xpar) (s s' : xst) (es : list xev),
-          xreduce_spec FlameSwipVI XUse p 0 s = Some (s', es) /\
-          xrejected es = true /\ es <> XE EReject :: nil /\ s' <> s.
-Proof. exact @flameswip_reject_refuted. Qed.
+Theorem C07_mage_flameswip_reject_repaired :
+  xreduce_spec FlameSwipVI XUse xp0 0 x0_cooling = Some (x0_cooling, XE EReject :: nil).
+Proof. exact @flameswip_reject_repaired. Qed.
 
 Theorem C07_mage_nonvacuous :
   xreduce_spec ThunderAttack XUse xp0 0 x0_cooling = Some (x0_cooling, XE EReject :: nil) /\
@@ -41,6 +31,5 @@ Proof. exact @xreject_happens. Qed.
 Print Assumptions C07_mage_reject_alone.
 Print Assumptions C07_mage_only_use_rejects.
 Print Assumptions C07_mage_not_ready_is_noop.
-Print Assumptions C07_mage_flameswip_reject_partial.
-Print Assumptions C07_mage_flameswip_reject_refuted.
+Print Assumptions C07_mage_flameswip_reject_repaired.
 Print Assumptions C07_mage_nonvacuous.
